@@ -342,6 +342,12 @@ func (t *Dense) ReadNpy(r io.Reader) (err error){
 			br.Read(&data[i])
 		}
 	{{end -}}
+	case reflect.Bool:
+		// WriteNpy writes bools ('b1'): read them back instead of leaving the tensor all false
+		data := t.Bools()
+		for i := 0; i < size; i++ {
+			br.Read(&data[i])
+		}
 	}
 	if err = br.Err(); err != nil {
 		return err
